@@ -98,12 +98,18 @@ def one(it):
     if kind == "equal":
         sel = it[1]
         s = target(prices("t1"), 5)
-        s.temp = {"selected": list(sel)}
-        A.WeighEqually()(s)
+        algo = A.WeighEqually()
         exp = {x: 1.0 / len(sel) for x in sel}
-        got = as_dict(s.temp["weights"])
-        if got != exp:
-            out.append(("equal", exp, got))
+        for call in range(3):
+            s.temp = {"selected": list(sel)}
+            algo(s)
+            got = as_dict(s.temp["weights"])
+            if got != exp:
+                out.append(("equal", {"call": call, "weights": exp}, got))
+                break
+            # downstream algos edit temp['weights'] in place (LimitDeltas, TargetVol do)
+            for k in list(s.temp["weights"]):
+                s.temp["weights"][k] = s.temp["weights"][k] * 0.5
     elif kind == "specified":
         spec, mut = it[1], it[2]
         s = target(prices("t1"), 5)
@@ -161,7 +167,17 @@ def one(it):
             if np.any(r.std(axis=0, ddof=1) == 0):
                 return None
         if kind == "invvol":
-            A.WeighInvVol(lookback=D(lb), lag=D(lag))(s)
+            algo = A.WeighInvVol(lookback=D(lb), lag=D(lag))
+            # a first use of the same instance with another selection / in-place edits must not matter
+            s.temp = {"selected": list(reversed(COLS))}
+            try:
+                algo(s)
+                for k in list(s.temp["weights"].keys()):
+                    s.temp["weights"][k] = 0.0
+            except Exception:
+                pass
+            s.temp = {"selected": list(sel)}
+            algo(s)
         elif kind == "erc":
             A.WeighERC(lookback=D(lb), lag=D(lag), covar_method=it[6])(s)
         else:
